@@ -379,7 +379,7 @@ def simplify(case):
 
 
 SUBCHECKS = [
-    SubCheck("windows", cases, run, quick=1200, thorough=20000, cost=2.0, shards=8,
+    SubCheck("windows", cases, run, quick=1200, thorough=20000, cost=2.0, shards=8, fuzz_runs=40000,
              rule="a check returned windows after wrap-around while the last `capacity` steps contained a terminated "
                   "episode shorter than the horizon or a truncated episode"),
 ]
